@@ -1,19 +1,18 @@
 #!/bin/sh
-# tools/seeded_regress.sh [tier] [name-glob]: apply every archived seeded change to /repo in turn, run the check of the
-# property it targets, undo it, and write seeded/RESULTS.md (which check caught which change).
-tier=${1:-quick}; glob=${2:-*}
+# tools/seeded_regress.sh [tier] [parallel] [name-glob]: every archived seeded change is evaluated in its own sandbox
+# (tools/mutant_sandbox.sh: private worktree of /repo + private copy of /verif) against the check of the property it
+# targets; writes seeded/RESULTS.md (which check caught which change).  /repo itself is never touched.
+tier=${1:-quick}; par=${2:-4}; glob=${3:-*}
 cd /verif || exit 2
-if [ -n "$(git -C /repo status --porcelain)" ]; then echo "/repo is not clean"; exit 2; fi
-out=seeded/RESULTS.md
-[ "$glob" = "*" ] && { echo "| seeded change | target check | tier | exit | VIOLATION lines | first report |"; echo "|---|---|---|---|---|---|"; } > $out
+tmp=$(mktemp /tmp/xvreg.XXXXXX)
 for d in seeded/$glob/; do
-  n=$(basename $d); p=$(python3 -c "import json,sys; print(json.load(open('$d/meta.json'))['property'])")
-  git -C /repo apply $d/patch.diff || { echo "| $n | $p | $tier | patch does not apply | | |" >> $out; continue; }
-  ./check $p --tier $tier > work/seeded_$n.log 2>&1; rc=$?
-  git -C /repo checkout -- .
-  v=$(grep -c '^VIOLATION' work/seeded_$n.log)
-  first=$(grep -m1 '^VIOLATION' work/seeded_$n.log | sed 's/^VIOLATION property=[A-Z0-9]* replay=[^ ]* *# *//' | cut -c1-160 | tr '|' '/')
-  echo "| $n | $p | $tier | $rc | $v | $first |" >> $out
-  echo "$n $p rc=$rc violations=$v"
-done
-git -C /repo status --porcelain | head -3
+  n=$(basename $d); [ -f $d/meta.json ] || continue
+  p=$(python3 -c "import json; print(json.load(open('$d/meta.json'))['property'])")
+  echo "$d/patch.diff $tier $p"
+done | xargs -P $par -L 1 tools/mutant_sandbox.sh > $tmp 2>&1
+sort $tmp > work/seeded_regress.out; rm -f $tmp
+if [ "$glob" = "*" ]; then
+  { echo "| seeded change | target check | tier | exit | VIOLATION lines | first report |"; echo "|---|---|---|---|---|---|";
+    sed -n 's/^\([A-Z0-9]*-m[0-9]*\) \(C[0-9]*\) tier=\([a-z]*\) rc=\([0-9]*\) violations=\([0-9]*\) :: \(.*\)$/| \1 | \2 | \3 | \4 | \5 | \6 |/p' work/seeded_regress.out | tr -d '`' ; } > seeded/RESULTS.md
+fi
+cat work/seeded_regress.out
